@@ -189,16 +189,18 @@ structure Plan where
   kw : KW
   groups : List (Sel × KW)
 
+/-- scikit-learn `BaseEstimator.set_params`, one iteration of the first loop -/
+def baseStep (names : List Key) (pl : Plan) (kv : Key × PVal) : Except Err Plan :=
+  match splitFirst sep2 kv.1 with
+  | (head, none) =>
+      if names.contains head then .ok { pl with kw := replaceKey head kv.2 pl.kw } else .error .value
+  | (head, some sub) =>
+      if names.contains head then .ok { pl with groups := addTo (.slot head) sub kv.2 pl.groups }
+      else .error .value
+
 /-- scikit-learn `BaseEstimator.set_params`, first loop -/
 def planBase (kw : KW) (kvs : KW) : Except Err Plan :=
-  let names := keys kw
-  kvs.foldlM (fun (pl : Plan) kv =>
-    match splitFirst sep2 kv.1 with
-    | (head, none) =>
-        if names.contains head then .ok { pl with kw := replaceKey head kv.2 pl.kw } else .error .value
-    | (head, some sub) =>
-        if names.contains head then .ok { pl with groups := addTo (.slot head) sub kv.2 pl.groups }
-        else .error .value) { kw := kw, groups := [] }
+  kvs.foldlM (baseStep (keys kw)) { kw := kw, groups := [] }
 
 /-- `SkBaseTransformLearner.set_params` up to the nested call -/
 def planLearner (kw : KW) (kvs : KW) : Except Err (Plan × PVal) := do
